@@ -98,7 +98,9 @@ impl BDDSet {
         // release the borrow of `other` before replacing: `other` may be `self`
         let _other = other.bdd.borrow().clone();
 
-        self.bdd.replace(self.env.and(new, _other));
+        // set difference: keep the elements of self that are not in other
+        self.bdd
+            .replace(self.env.and(new, self.env.not(_other)));
 
         self
     }
